@@ -112,7 +112,34 @@ def _boo_self(ctx, l, T, N, extra=None):
     large = _qfield(ctx, "largeQlm", T, N, M)
     attrs = dict(l=l, smallqlm=small, largeQlm=large, nparticle=N)
     attrs.update(extra or {})
+    ctx._boo_qsids = (small.sid, large.sid)
     return ctx.obj(MOD, CLS, attrs), small, large, M
+
+
+FRAME_Q = "frame:the-q_lm/Q_lm-arrays-held-by-the-object-are-not-written"
+
+
+def _with_object_frame(cls):
+    """every query method of boo_3d leaves the vectors computed at construction untouched: later calls on the same object (q_l, w_l,
+    correlations) read them — a method that rescales them in place changes what the object means (multi-step sequences)"""
+    cn, en = cls.clause_names, cls.ensures
+
+    def clause_names(self, case):
+        return list(cn(self, case)) + [FRAME_Q]
+
+    def ensures(self, ctx, case, inp, out):
+        yield from en(self, ctx, case, inp, out)
+        sids = getattr(ctx, "_boo_qsids", None)
+        if not sids:
+            yield FRAME_Q, False
+            return
+        ev = [e for e in out.state.events if e[0] == "store" and e[1] in sids]
+        if not ev:
+            yield FRAME_Q, True
+        for e in ev:
+            yield FRAME_Q, (z3.Not(z3.And(*e[3])) if e[3] else False)
+    cls.clause_names, cls.ensures = clause_names, ensures
+    return cls
 
 
 def _sym_l(ctx):
@@ -337,8 +364,14 @@ def _replay_boo(what, case, clause, model, seed):
                 return {"ran": True, "failed": True, "inputs": info, "detail": f"boo_3d(...) raises {type(e).__name__}: {e}", "searched": tried}
             q, Q = _ref_fields(sy)
             tried += 1
+            held = None if what == "init" else (np.array(obj.smallqlm).tobytes(), np.array(obj.largeQlm).tobytes())
             try:
                 bad = _check_method(B, obj, what, case, sy, q, Q, tmpdir, rng)
+                if not bad and held is not None and held != (np.array(obj.smallqlm).tobytes(), np.array(obj.largeQlm).tobytes()):
+                    # a query method must leave the vectors held by the object untouched (later q_l / w_l / correlation calls read them)
+                    dq = float(np.max(np.abs(np.array(obj.smallqlm) - q))) if np.array(obj.smallqlm).shape == np.array(q).shape else float("nan")
+                    bad = (f"{what} modified the q_lm / Q_lm arrays held by the object in place: after the call max |smallqlm - bond average of Y_lm| = {dq:.3e} "
+                           f"(before: identical to the definition)")
             except Exception as e:      # the methods under contract have no specified raising path
                 import traceback
                 where = traceback.extract_tb(e.__traceback__)[-1]
@@ -1501,6 +1534,8 @@ def extra_checks(tier, seed, repo):
     return {"obligations": obs}
 
 
+for _c in (QlQl, Sij, WCap, SpatialCorr, TimeCorr):
+    _with_object_frame(_c)
 UNITS = [QlQl(), QlmQlm(), Sij(), WCap(), SpatialCorr(), TimeCorr(), Init()]
 # callee contracts of other properties used at call sites: their units are re-verified with this check
 from contracts.common import callee_units as _callee_units   # noqa: E402
